@@ -27,11 +27,21 @@ class UserMove(BaseMove):
     __slots__ = ("log", "ret", "tag")
 
 
-def mk_leaf(kind):
+class UserDisp(DisplacementMove):
+    """a user's displacement move: still of the displacement kind (composite_move_type is inherited)"""
+
+
+class UserExch(ExchangeMove):
+    """a user's exchange move: still of the exchange kind"""
+
+
+def mk_leaf(kind, idx=1):
+    # every other leaf object of a displacement / exchange kind is an instance of a user subclass (seeded change C17-11: kinds compared
+    # by exact class)
     if kind == "Disp":
-        return DisplacementMove(np.arange(3))
+        return (UserDisp if idx % 2 == 0 else DisplacementMove)(np.arange(3))
     if kind == "Exch":
-        return ExchangeMove(np.arange(3))
+        return (UserExch if idx % 2 == 0 else ExchangeMove)(np.arange(3))
     if kind == "Cell":
         return CellMove()
     if kind == "Ham":
@@ -59,7 +69,7 @@ def build(tree, pool, mk):
     if tag == "L":
         _, idx, kind = tree
         if idx not in pool:
-            pool[idx] = mk(kind)
+            pool[idx] = mk(kind, idx) if mk is mk_leaf else mk(kind)
         return pool[idx]
     if tag == "A":
         a, b = build(tree[1], pool, mk), build(tree[2], pool, mk)
